@@ -141,7 +141,75 @@ fn check_file(path: &str, fc: &FileCase) -> Result<(), (String, String)> {
     if cnt != fc.recs.len() || total != exp_total {
         return Err((suffix_sig("reader.stats"), format!("seq_stats = ({} records, {} bases), iteration delivers ({}, {})", cnt, total, fc.recs.len(), exp_total)));
     }
-    Ok(())
+    // the adaptor sweep re-reads the file ~16 times: always for small files, one in four of the bigger ones
+    let bytes: usize = exp_total + 40 * fc.recs.len();
+    if bytes <= 20_000 || (exp_total + fc.recs.len()) % 4 == 0 {
+        check_protocol(path, fmt, fc)
+    } else {
+        Ok(())
+    }
+}
+
+/// "every record exactly once, in file order" whatever std adaptor consumes the iterator: after skip / nth / step_by
+/// the delivered records must be the expected ones with their file ordinals; count / last agree; an exhausted
+/// reader stays exhausted.
+fn check_protocol(path: &str, fmt: SeqFormat, fc: &FileCase) -> Result<(), (String, String)> {
+    let n = fc.recs.len();
+    let open = || Sequences::new(fmt, get_reader(path).unwrap()).unwrap();
+    let key = |s: &ktio::seq::Sequence| (s.n, s.id.clone(), s.seq.len());
+    let want = |i: usize| (i, fc.recs[i].id.clone(), fc.recs[i].seq.len());
+    let r = guarded(|| {
+        for j in [1usize, 2, n / 2, n.saturating_sub(1), n, n + 1] {
+            let got: Vec<_> = open().skip(j).map(|s| key(&s)).collect();
+            let exp: Vec<_> = (j.min(n)..n).map(want).collect();
+            if got != exp {
+                return Some(("reader.protocol.skip".to_string(), format!("skip({}) delivers {} records starting with {:?}; expected {} starting with {:?}", j, got.len(), got.first(), exp.len(), exp.first())));
+            }
+        }
+        for j in [0usize, 1, n / 3, n.saturating_sub(1), n] {
+            let mut it = open();
+            let got = it.nth(j).map(|s| key(&s));
+            let exp = if j < n { Some(want(j)) } else { None };
+            if got != exp {
+                return Some(("reader.protocol.nth".to_string(), format!("nth({}) = {:?}, expected {:?}", j, got, exp)));
+            }
+            let after = it.next().map(|s| key(&s));
+            let exp_after = if j + 1 < n { Some(want(j + 1)) } else { None };
+            if after != exp_after {
+                return Some(("reader.protocol.next_after_nth".to_string(), format!("next() after nth({}) = {:?}, expected {:?}", j, after, exp_after)));
+            }
+        }
+        let got: Vec<_> = open().step_by(3).map(|s| key(&s)).collect();
+        let exp: Vec<_> = (0..n).step_by(3).map(want).collect();
+        if got != exp {
+            return Some(("reader.protocol.step_by".to_string(), format!("step_by(3) delivers {:?}..., expected {:?}...", got.iter().take(3).collect::<Vec<_>>(), exp.iter().take(3).collect::<Vec<_>>())));
+        }
+        // (count() is deliberately unimplemented by the reader — seq_stats is the documented way — and is not called)
+        if open().last().map(|s| key(&s)) != n.checked_sub(1).map(want) {
+            return Some(("reader.protocol.last".to_string(), "last() is not the last record".to_string()));
+        }
+        let mut it = open();
+        let mut folded = 0usize;
+        if n >= 2 {
+            it.next();
+            folded = it.fold(0usize, |a, s| a + s.n);
+            if folded != (1..n).sum::<usize>() {
+                return Some(("reader.protocol.fold_after_next".to_string(), format!("ordinals seen by fold() after one next() sum to {}, expected {}", folded, (1..n).sum::<usize>())));
+            }
+        }
+        let _ = folded;
+        let mut it = open();
+        while it.next().is_some() {}
+        if it.next().is_some() {
+            return Some(("reader.protocol.after_end".to_string(), "an exhausted reader delivered another record".to_string()));
+        }
+        None
+    });
+    match r {
+        Ok(None) => Ok(()),
+        Ok(Some(e)) => Err(e),
+        Err(p) => Err((panic_sig(&p), format!("reader panicked under an iterator adaptor: {}", p))),
+    }
 }
 
 pub fn files(ctx: &Ctx) -> Stats {
